@@ -4,6 +4,7 @@ CONSTANTS
   BoundModes <- BM4
   MenuKind = "general"
   MaxDepth = 2
+  StartChain = FALSE
   Emit = TRUE
 INVARIANT BagMatches
 INVARIANT ListMatches
